@@ -152,7 +152,6 @@ def atoms_extra_pickle() -> list:
     return atoms_extra_jsonpickle() + [{1: "a"}, {(1, 2): None, None: 0}, {True: 1, "1": 2}]
 
 
-SMALL_IDX = {"JsonSerializer": None}  # filled lazily
 
 
 def atoms_small() -> list:
@@ -932,13 +931,13 @@ def _chunks(n: int, size: int) -> list[tuple[int, int]]:
 
 
 def _value_items(thorough: bool) -> list[tuple]:
-    """quick: SQLite 'lite' values, memory 'l2' (data store on) / 'l1' (data store off);
-    thorough: SQLite 'l1', memory 'l2'.  Fresh-app cases: every atom (memory thorough: 'lite')."""
+    """quick: data store on: memory 'l2', SQLite 'lite'; data store off (the store is not on the path): memory
+    'lite', SQLite atoms; thorough: memory 'l2', SQLite 'l1'. Fresh-app cases: every atom (memory thorough: 'lite')."""
     items: list[tuple] = []
     # SQLite first (a case costs ~10 ms there, ~0.2 ms in memory): better balance of the pool
-    sq_level = "l1" if thorough else "lite"
     for ser in SERIALIZERS:
         for cds_off in (False, True):
+            sq_level = "l1" if thorough else ("atoms" if cds_off else "lite")
             n = len(values_for(ser, sq_level))
             items += [(ser, env.SQLITE, cds_off, sq_level, lo, hi, False) for lo, hi in _chunks(n, 40)]
     for ser in SERIALIZERS:
@@ -950,7 +949,7 @@ def _value_items(thorough: bool) -> list[tuple]:
                 items += [(ser, backend, cds_off, level, lo, hi, True) for lo, hi in _chunks(n, size)]
     for ser in SERIALIZERS:
         for cds_off in (False, True):
-            level = "l2" if (thorough or not cds_off) else "l1"
+            level = "l2" if (thorough or not cds_off) else "lite"
             n = len(values_for(ser, level))
             items += [(ser, env.MEM, cds_off, level, lo, hi, False) for lo, hi in _chunks(n, 200)]
     return items
